@@ -340,3 +340,378 @@ Section main.
       destruct (trep_Some _ _ _ _ T2 Hm) as [-> _]. rewrite Ec. by apply mb_clock_le_clock.
   Qed.
 End main.
+
+(** ** the facts hold of every API-generated history *)
+Lemma op_wf2_mono H H' D o : op_wf2 H D o → op_wf2 (H ++ H') D o.
+Proof.
+  intros [Hc Hs]. split; [|done]. eapply op_ctx_le_mono; [|exact Hc].
+  apply mspec_clock_mono. intros o'. apply known_ops_mono_H.
+Qed.
+
+(** what the API generates at a reachable state satisfies them *)
+Lemma m2gen_op_wf H s K a cmd o :
+  m2hist_ok H → hist_facts2 H → m2reach H s K → m2gen s a cmd = Some o → op_wf2 H K o.
+Proof.
+  intros Hok Hf Hr Hgen.
+  pose proof (maphist_ok_wf vo2 H (m2hist_maphist H Hok)) as HH.
+  pose proof (m2_bounds H Hok Hf s K) as Hb.
+  pose proof (m2reach_mapreach H s K Hok Hr) as Hr'.
+  destruct (map_keys_reach_mspec vo2 H HH s K Hr') as (Ec & _ & Ee & _).
+  unfold op_wf2. rewrite <- Ec.
+  assert (∀ k1, let t := default mnew (eval <$> mentries s !! k1) in
+            vleq (mclock t) (mclock s) ∧
+            (∀ k', vleq (default ∅ (eclock <$> mentries t !! k')) (mclock s)) ∧
+            ∀ k2, let v := default onew (eval <$> mentries t !! k2) in
+              vleq (oclock v) (mclock s) ∧ ∀ m', vleq (default ∅ (oentries v !! m')) (mclock s)) as Hin.
+  { intros k1. destruct (mentries s !! k1) as [e|] eqn:E; cbn.
+    - destruct (Hb k1 e Hr E) as [B1 B2]. split_and!; [done| |].
+      + intros k'. destruct (mentries (eval e) !! k') as [e2|] eqn:E2; cbn; [|apply vleq_empty_min].
+        by destruct (B2 k' e2 E2).
+      + intros k2. destruct (mentries (eval e) !! k2) as [e2|] eqn:E2; cbn.
+        * destruct (B2 k2 e2 E2) as (_ & B3 & B4). split; [done|]. intros m'.
+          destruct (oentries (eval e2) !! m') as [mc|] eqn:Em; cbn; [by eapply B4|apply vleq_empty_min].
+        * split; [apply vleq_empty_min|]. intros m'. rewrite lookup_empty. apply vleq_empty_min.
+    - split_and!; [apply vleq_empty_min| |].
+      + intros k'. rewrite lookup_empty. apply vleq_empty_min.
+      + intros k2. rewrite lookup_empty. cbn. split; [apply vleq_empty_min|]. intros m'.
+        rewrite lookup_empty. apply vleq_empty_min. }
+  destruct cmd as [k1 k2 ms|k1 k2 ms [m'|]|k1 ks [k'|]|ks [k'|]]; cbn in Hgen; injection Hgen as <-;
+    unfold mupdate, oadd_all, orm_all; cbn [op_ctx_le op_shape v_default map_valops orswot_valops ac_dot].
+  - done.
+  - split; [|done]. destruct (Hin k1) as (_ & _ & Hv). by destruct (Hv k2) as [_ ?].
+  - split; [|done]. destruct (Hin k1) as (_ & _ & Hv). by destruct (Hv k2) as [? _].
+  - split; [|done]. by destruct (Hin k1) as (_ & ? & _).
+  - split; [|done]. by destruct (Hin k1) as (? & _ & _).
+  - split; [|done]. replace (default ∅ (eclock <$> mentries s !! k')) with (mentry_clock s k').
+    + rewrite Ee, Ec. apply mspec_entry_le_clock.
+    + unfold mentry_clock. by destruct (mentries s !! k').
+  - split; [|done]. apply vleq_refl.
+Qed.
+
+Lemma m2hist_facts H : m2hist_ok H → hist_facts2 H.
+Proof.
+  induction 1 as [|H s K a cmd o Hok IH Hr Hown Hgen]; [intros j r Hj; by rewrite lookup_nil in Hj|].
+  intros j r Hj. apply op_wf2_mono. destruct (decide (j < length H)%nat) as [Hl|Hge].
+  - rewrite lookup_app_l in Hj by done. by apply (IH j r).
+  - assert (j = length H) as ->.
+    { apply lookup_lt_Some in Hj. rewrite app_length in Hj. cbn in Hj. lia. }
+    rewrite lookup_app_r, Nat.sub_diag in Hj by lia. cbn in Hj. injection Hj as <-. cbn [op_deps op_val].
+    by eapply m2gen_op_wf.
+Qed.
+
+(** * The refinement theorem *)
+Theorem map2_values_refine (H : list (oprec (mop (mop oop)))) : m2hist_ok H →
+  ∀ (s : cmap (cmap orswot)) (K : gset nat), m2reach H s K →
+    ∀ k1, m2_state_inner_clocks s k1 = m2_inner_clocks (known_ops H K) k1 ∧
+          ∀ k2, m2_state_entries s k1 k2 = m2_entries (known_ops H K) k1 k2.
+Proof. intros Hok s K Hr k1. apply m2_refine; [done|by apply m2hist_facts|done]. Qed.
+
+(** * Part 4: corollaries *)
+
+(** 1. the monitor's executable check holds of every reachable state *)
+Theorem map2_valspec_ok H s K : m2hist_ok H → m2reach H s K → m2valspec_ok H K s = true.
+Proof.
+  intros Hok Hr. unfold m2valspec_ok. apply forallb_forall. intros k1 _.
+  destruct (map2_values_refine H Hok s K Hr k1) as [E1 E2].
+  apply andb_true_intro. split; [by apply bool_decide_eq_true|].
+  apply forallb_forall. intros k2 _. by apply bool_decide_eq_true.
+Qed.
+
+(** 2. convergence: equal knowledge gives the same outer keys and clocks (key layer), the same
+    inner key tables and the same member tables, whatever the causal delivery order *)
+Theorem map2_converge H s1 s2 K : m2hist_ok H → m2reach H s1 K → m2reach H s2 K →
+  (∀ k1, m2_state_inner_clocks s1 k1 = m2_state_inner_clocks s2 k1) ∧
+  (∀ k1 k2, m2_state_entries s1 k1 k2 = m2_state_entries s2 k1 k2) ∧
+  dom (mentries s1) = dom (mentries s2) ∧
+  mclock s1 = mclock s2 ∧
+  (∀ k, mentry_clock s1 k = mentry_clock s2 k) ∧
+  mdeferred s1 = mdeferred s2.
+Proof.
+  intros Hok H1 H2.
+  pose proof (maphist_ok_wf vo2 H (m2hist_maphist H Hok)) as HH.
+  pose proof (m2reach_mapreach H s1 K Hok H1) as R1. pose proof (m2reach_mapreach H s2 K Hok H2) as R2.
+  destruct (map_keys_reach_mspec vo2 H HH s1 K R1) as (C1 & D1 & E1 & F1).
+  destruct (map_keys_reach_mspec vo2 H HH s2 K R2) as (C2 & D2 & E2 & F2).
+  split_and!.
+  - intros k1. destruct (map2_values_refine H Hok s1 K H1 k1) as [-> _].
+    by destruct (map2_values_refine H Hok s2 K H2 k1) as [-> _].
+  - intros k1 k2. destruct (map2_values_refine H Hok s1 K H1 k1) as [_ ->].
+    by destruct (map2_values_refine H Hok s2 K H2 k1) as [_ ->].
+  - unfold mkeys in *. congruence.
+  - congruence.
+  - intros k. by rewrite E1, E2.
+  - congruence.
+Qed.
+
+(** 3. duplicates are absorbed *)
+Theorem map2_dup_absorb H s K i o : m2hist_ok H → m2reach H s K → H !! i = Some o → i ∈ K →
+  adm_causal H K i →
+  ∀ k1, m2_state_inner_clocks (mapply vo2 s (op_val o)) k1 = m2_state_inner_clocks s k1 ∧
+        ∀ k2, m2_state_entries (mapply vo2 s (op_val o)) k1 k2 = m2_state_entries s k1 k2.
+Proof.
+  intros Hok Hr Hi HiK Ha k1.
+  assert (m2reach H (mapply vo2 s (op_val o)) (K ∪ {[i]})) as Hr' by (by eapply reach_apply).
+  replace (K ∪ {[i]}) with K in Hr' by set_solver.
+  destruct (map2_values_refine H Hok _ K Hr' k1) as [-> E1].
+  destruct (map2_values_refine H Hok s K Hr k1) as [-> E2]. split; [done|].
+  intros k2. by rewrite E1, E2.
+Qed.
+
+(** 4. the literal sentences *)
+Lemma ik_wit_literal (os : list op2) k1 k2 x :
+  (∃ o, o ∈ os ∧ ik_wit k1 k2 o x) ↔ ∃ d0 o', MUp d0 k1 (MUp x k2 o') ∈ os.
+Proof.
+  split.
+  - intros (o & Ho & Hw). destruct o as [c ks|d0 k [c ks|d' k' o']]; try done.
+    destruct Hw as [[-> ->] ->]. by exists d0, o'.
+  - intros (d0 & o' & Ho). by exists (MUp d0 k1 (MUp x k2 o')).
+Qed.
+Lemma mb_wit_literal (os : list op2) k1 k2 m x :
+  (∃ o, o ∈ os ∧ mb_wit k1 k2 m o x) ↔ ∃ d0 d1 ms, MUp d0 k1 (MUp d1 k2 (OAdd x ms)) ∈ os ∧ m ∈ ms.
+Proof.
+  split.
+  - intros (o & Ho & Hw). destruct o as [c ks|d0 k [c ks|d' k' [d'' ms|c ms]]]; try done.
+    destruct Hw as [(-> & -> & Hm) ->]. by exists d0, d', ms.
+  - intros (d0 & d1 & ms & Ho & Hm). by exists (MUp d0 k1 (MUp d1 k2 (OAdd x ms))).
+Qed.
+Lemma ik_cov_literal (os : list op2) k1 k2 d :
+  (∃ o, o ∈ os ∧ ik_cov k1 k2 o d) ↔
+    (∃ c ks, MRm c ks ∈ os ∧ k1 ∈ ks ∧ dcounter d <= vget c (dactor d)) ∨
+    (∃ d1 c ks, MUp d1 k1 (MRm c ks) ∈ os ∧ k2 ∈ ks ∧ dcounter d <= vget c (dactor d)).
+Proof.
+  split.
+  - intros (o & Ho & Hc). destruct o as [c ks|d0 k [c ks|d' k' o']]; cbn in Hc; try done.
+    + left. exists c, ks. tauto.
+    + right. destruct Hc as [[-> ?] ?]. by exists d0, c, ks.
+  - intros [(c & ks & Ho & ? & ?)|(d1 & c & ks & Ho & ? & ?)].
+    + by exists (MRm c ks).
+    + by exists (MUp d1 k1 (MRm c ks)).
+Qed.
+Lemma mb_cov_literal (os : list op2) k1 k2 m d :
+  (∃ o, o ∈ os ∧ mb_cov k1 k2 m o d) ↔
+    (∃ c ks, MRm c ks ∈ os ∧ k1 ∈ ks ∧ dcounter d <= vget c (dactor d)) ∨
+    (∃ d1 c ks, MUp d1 k1 (MRm c ks) ∈ os ∧ k2 ∈ ks ∧ dcounter d <= vget c (dactor d)) ∨
+    (∃ d1 d2 c ms, MUp d1 k1 (MUp d2 k2 (ORm c ms)) ∈ os ∧ m ∈ ms ∧ dcounter d <= vget c (dactor d)).
+Proof.
+  split.
+  - intros (o & Ho & Hc). destruct o as [c ks|d0 k [c ks|d' k' [d'' ms|c ms]]]; cbn in Hc; try done.
+    + left. exists c, ks. tauto.
+    + right. left. destruct Hc as [[-> ?] ?]. by exists d0, c, ks.
+    + right. right. destruct Hc as [(-> & -> & ?) ?]. by exists d0, d', c, ms.
+  - intros [(c & ks & Ho & ? & ?)|[(d1 & c & ks & Ho & ? & ?)|(d1 & d2 & c & ms & Ho & ? & ?)]].
+    + by exists (MRm c ks).
+    + by exists (MUp d1 k1 (MRm c ks)).
+    + by exists (MUp d1 k1 (MUp d2 k2 (ORm c ms))).
+Qed.
+
+(** a table entry is present iff a witness with a non-zero counter survives *)
+Lemma trep_dom_live M T ds k : trep M T → T k = dots_clock ds →
+  (k ∈ dom M ↔ ∃ x, x ∈ ds ∧ dcounter x ≠ 0).
+Proof.
+  intros HM HT. rewrite elem_of_dom, HM. unfold tbl. rewrite HT. split.
+  - intros Hs. destruct (vis_empty (dots_clock ds)) eqn:E; [by destruct Hs|].
+    apply vis_empty_false in E.
+    apply map_choose in E as (a & n & Ha). rewrite dots_clock_lookup in Ha. cbn zeta in Ha.
+    destruct (max_ctr ds a =? 0) eqn:Ez; [done|].
+    destruct (max_ctr_witness ds a) as [?|(x & Hx & _ & Hc)]; [lia|]. exists x. split; [done|lia].
+  - intros (x & Hx & Hc).
+    assert (dots_clock ds ≠ ∅) as Hne.
+    { apply (vne_get _ (dactor x)). rewrite dots_clock_get. pose proof (max_ctr_ge _ _ _ Hx eq_refl). lia. }
+    apply vis_empty_false in Hne. rewrite Hne. by eexists.
+Qed.
+
+(** every dot carried by a learned update has a non-zero counter *)
+Lemma m2_dot_pos H s K d0 k d k' o : m2hist_ok H → m2reach H s K →
+  MUp d0 k (MUp d k' o) ∈ known_ops H K → dcounter d ≠ 0 ∧ match o with OAdd d' _ => dcounter d' ≠ 0 | _ => True end.
+Proof.
+  intros Hok Hr Hin. pose proof Hin as (i & r & Hi & HiK & Hv)%elem_of_known_ops.
+  destruct (m2hist_facts H Hok i r Hi) as [_ Hsh]. rewrite Hv in Hsh. cbn in Hsh. destruct Hsh as [-> Hsh].
+  destruct (up_gate2 H Hok s K i r d0 k _ Hr Hi Hv) as (_ & _ & ?). split; [done|].
+  destruct o; [by subst|done].
+Qed.
+
+(** an inner key is present iff some learned inner update of it is covered neither by a
+    learned outer key remove naming the outer key nor by a learned inner key remove naming it *)
+Theorem map2_inner_key_iff H s K k1 k2 : m2hist_ok H → m2reach H s K →
+  k2 ∈ dom (m2_state_inner_clocks s k1) ↔
+    ∃ d0 d o, MUp d0 k1 (MUp d k2 o) ∈ known_ops H K ∧
+      ¬ (∃ c ks, MRm c ks ∈ known_ops H K ∧ k1 ∈ ks ∧ dcounter d <= vget c (dactor d)) ∧
+      ¬ (∃ d1 c ks, MUp d1 k1 (MRm c ks) ∈ known_ops H K ∧ k2 ∈ ks ∧ dcounter d <= vget c (dactor d)).
+Proof.
+  intros Hok Hr. destruct (map2_values_refine H Hok s K Hr k1) as [-> _].
+  rewrite (trep_dom_live _ _ _ k2 (m2_inner_clocks_trep _ k1) eq_refl).
+  setoid_rewrite elem_of_m2_inner_live. unfold glive.
+  setoid_rewrite ik_wit_literal. setoid_rewrite ik_cov_literal. split.
+  - intros (d & [(d0 & o & Hin) Hc] & _). exists d0, d, o. tauto.
+  - intros (d0 & d & o & Hin & Hn1 & Hn2). exists d. split; [split; [by exists d0, o|tauto]|].
+    by destruct (m2_dot_pos H s K _ _ _ _ _ Hok Hr Hin).
+Qed.
+
+(** a member is present iff some learned add of it is covered by no learned outer key remove,
+    inner key remove or nested member remove naming its outer key, inner key, itself *)
+Theorem map2_member_iff H s K k1 k2 m : m2hist_ok H → m2reach H s K →
+  m ∈ dom (m2_state_entries s k1 k2) ↔
+    ∃ d0 d1 d ms, MUp d0 k1 (MUp d1 k2 (OAdd d ms)) ∈ known_ops H K ∧ m ∈ ms ∧
+      ¬ (∃ c ks, MRm c ks ∈ known_ops H K ∧ k1 ∈ ks ∧ dcounter d <= vget c (dactor d)) ∧
+      ¬ (∃ d2 c ks, MUp d2 k1 (MRm c ks) ∈ known_ops H K ∧ k2 ∈ ks ∧ dcounter d <= vget c (dactor d)) ∧
+      ¬ (∃ d2 d3 c ms', MUp d2 k1 (MUp d3 k2 (ORm c ms')) ∈ known_ops H K ∧ m ∈ ms' ∧
+                        dcounter d <= vget c (dactor d)).
+Proof.
+  intros Hok Hr. destruct (map2_values_refine H Hok s K Hr k1) as [_ E]. rewrite E.
+  rewrite (trep_dom_live _ _ _ m (m2_entries_trep _ k1 k2) eq_refl).
+  setoid_rewrite elem_of_m2_live_dots. unfold glive.
+  setoid_rewrite mb_wit_literal. setoid_rewrite mb_cov_literal. split.
+  - intros (d & [(d0 & d1 & ms & Hin & Hm) Hc] & _). exists d0, d1, d, ms. tauto.
+  - intros (d0 & d1 & d & ms & Hin & Hm & Hn1 & Hn2 & Hn3). exists d.
+    split; [split; [by exists d0, d1, ms|tauto]|].
+    by destruct (m2_dot_pos H s K _ _ _ _ _ Hok Hr Hin) as [_ ?].
+Qed.
+
+(** ** non-vacuity.  Actor 1 adds members 10, 11 under (7, 3); actor 2, having applied that,
+    adds 10, 12 under (7, 3).  Both having applied both adds, actor 1 removes member 10 with
+    the context of the innermost set's [read_ctx] and then adds member 14 under (7, 3);
+    concurrently actor 2 removes inner key 3 under 7 with the context of the inner [get(3)],
+    then removes outer key 7 with the context of the outer [get(7)], then adds member 13
+    under (7, 4).  The history is API-generated.  The replica that has applied all seven ops
+    is reachable in (at least) two causal orders: actor 1's remove before actor 2's removes
+    ([s]), or after them ([s']: the nested remove then meets a fresh innermost set and stays
+    pending there for ever).  The two states differ, yet both hold exactly the specified
+    tables: inner keys 3 (witnessed by actor 1's later updates) and 4 under key 7, member 14
+    under (7, 3), member 13 under (7, 4). *)
+Local Instance m2_oop_eq_dec : EqDecision oop.
+Proof. solve_decision. Defined.
+Local Instance m2_mop_eq_dec {X : Type} `{EqDecision X} : EqDecision (mop X).
+Proof. solve_decision. Defined.
+
+Section example.
+  Let o0 : op2 := MUp (Dot 1 1) 7 (MUp (Dot 1 1) 3 (OAdd (Dot 1 1) [10; 11])).
+  Let o1 : op2 := MUp (Dot 2 1) 7 (MUp (Dot 2 1) 3 (OAdd (Dot 2 1) [10; 12])).
+  Let o2 : op2 := MUp (Dot 1 2) 7 (MUp (Dot 1 2) 3 (ORm {[1 := 1; 2 := 1]} [10])).
+  Let o3 : op2 := MUp (Dot 2 2) 7 (MRm {[1 := 1; 2 := 1]} {[3]}).
+  Let o4 : op2 := MRm {[1 := 1; 2 := 2]} {[7]}.
+  Let o5 : op2 := MUp (Dot 2 3) 7 (MUp (Dot 2 3) 4 (OAdd (Dot 2 3) [13])).
+  Let o6 : op2 := MUp (Dot 1 3) 7 (MUp (Dot 1 3) 3 (OAdd (Dot 1 3) [14])).
+  Let D1 : gset nat := ∅ ∪ {[0%nat]}.
+  Let D2 : gset nat := ∅ ∪ {[0%nat]} ∪ {[1%nat]}.
+  Let D4 : gset nat := ∅ ∪ {[0%nat]} ∪ {[1%nat]} ∪ {[3%nat]}.
+  Let D5 : gset nat := ∅ ∪ {[0%nat]} ∪ {[1%nat]} ∪ {[3%nat]} ∪ {[4%nat]}.
+  Let D6 : gset nat := ∅ ∪ {[0%nat]} ∪ {[1%nat]} ∪ {[2%nat]}.
+  Let r0 := OpRec 1 o0 ∅.
+  Let r1 := OpRec 2 o1 D1.
+  Let r2 := OpRec 1 o2 D2.
+  Let r3 := OpRec 2 o3 D2.
+  Let r4 := OpRec 2 o4 D4.
+  Let r5 := OpRec 2 o5 D5.
+  Let r6 := OpRec 1 o6 D6.
+  Let H : list (oprec op2) := [r0; r1; r2; r3; r4; r5; r6].
+  Let K : gset nat := ∅ ∪ {[0%nat]} ∪ {[1%nat]} ∪ {[2%nat]} ∪ {[3%nat]} ∪ {[4%nat]} ∪ {[5%nat]} ∪ {[6%nat]}.
+  Let K' : gset nat := ∅ ∪ {[0%nat]} ∪ {[1%nat]} ∪ {[3%nat]} ∪ {[4%nat]} ∪ {[5%nat]} ∪ {[2%nat]} ∪ {[6%nat]}.
+  Let ap := mapply vo2.
+  Let s := ap (ap (ap (ap (ap (ap (ap mnew o0) o1) o2) o3) o4) o5) o6.
+  Let s' := ap (ap (ap (ap (ap (ap (ap mnew o0) o1) o3) o4) o5) o2) o6.
+
+  Example map2_example :
+    m2hist_ok H ∧ m2reach H s K ∧ m2reach H s' K' ∧ K' = K ∧
+    known_ops H K = [o0; o1; o2; o3; o4; o5; o6] ∧
+    s ≠ s' ∧
+    m2_state_inner_clocks s 7 = {[3 := {[1 := 3]}; 4 := {[2 := 3]}]} ∧
+    m2_state_inner_clocks s' 7 = {[3 := {[1 := 3]}; 4 := {[2 := 3]}]} ∧
+    m2_inner_clocks (known_ops H K) 7 = {[3 := {[1 := 3]}; 4 := {[2 := 3]}]} ∧
+    m2_state_entries s 7 3 = {[14 := {[1 := 3]}]} ∧
+    m2_state_entries s' 7 3 = {[14 := {[1 := 3]}]} ∧
+    m2_entries (known_ops H K) 7 3 = {[14 := {[1 := 3]}]} ∧
+    m2_state_entries s 7 4 = {[13 := {[2 := 3]}]} ∧
+    m2_state_entries s' 7 4 = {[13 := {[2 := 3]}]} ∧
+    m2_entries (known_ops H K) 7 4 = {[13 := {[2 := 3]}]} ∧
+    m2_inner_live (known_ops H K) 7 3 = [Dot 1 2; Dot 1 3] ∧
+    m2_live_dots (known_ops H K) 7 3 10 = [] ∧
+    m2valspec_ok H K s = true ∧ m2valspec_ok H K s' = true.
+  Proof.
+    assert (∀ (H' : list (oprec op2)) K0 i r, H' !! i = Some r → op_deps r ⊆ K0 → adm_causal H' K0 i) as Hadm.
+    { intros H' K0 i r Hi Hd. by exists r. }
+    assert (∀ (H' : list (oprec op2)) t K0 i r, m2reach H' t K0 → H' !! i = Some r →
+              bool_decide (op_deps r ⊆ K0) = true → m2reach H' (ap t (op_val r)) (K0 ∪ {[i]})) as Hstep.
+    { intros H' t K0 i r Ht Hi Hd. apply (reach_apply _ _ _ _ _ _ t K0 i r); [done|done|].
+      eapply Hadm; [done|]. by apply bool_decide_eq_true in Hd. }
+    assert (m2hist_ok H) as Hok.
+    { change H with ((((((([] ++ [r0]) ++ [r1]) ++ [r2]) ++ [r3]) ++ [r4]) ++ [r5]) ++ [r6]).
+      apply (hist_snoc _ _ _ _ _ _ _ (ap (ap (ap mnew o0) o1) o2) D6 1 (M2Add 7 3 [14])).
+      - apply (hist_snoc _ _ _ _ _ _ _ (ap (ap (ap (ap mnew o0) o1) o3) o4) D5 2 (M2Add 7 4 [13])).
+        + apply (hist_snoc _ _ _ _ _ _ _ (ap (ap (ap mnew o0) o1) o3) D4 2 (M2KeyRm {[7]} (Some 7))).
+          * apply (hist_snoc _ _ _ _ _ _ _ (ap (ap mnew o0) o1) D2 2 (M2InnerKeyRm 7 {[3]} (Some 3))).
+            -- apply (hist_snoc _ _ _ _ _ _ _ (ap (ap mnew o0) o1) D2 1 (M2Rm 7 3 [10] None)).
+               ++ apply (hist_snoc _ _ _ _ _ _ _ (ap mnew o0) D1 2 (M2Add 7 3 [10; 12])).
+                  ** apply (hist_snoc _ _ _ _ _ _ _ mnew ∅ 1 (M2Add 7 3 [10; 11])); [constructor|constructor| |apply (bool_decide_unpack _); by vm_compute].
+                     intros j r Hj. by rewrite lookup_nil in Hj.
+                  ** apply (Hstep _ mnew ∅ 0%nat r0); [constructor|done|by vm_compute].
+                  ** intros [|j] r Hj Ha; cbn in Hj; simplify_eq.
+                  ** apply (bool_decide_unpack _); by vm_compute.
+               ++ apply (Hstep _ _ _ 1%nat r1); [|done|by vm_compute].
+                  apply (Hstep _ mnew ∅ 0%nat r0); [constructor|done|by vm_compute].
+               ++ intros [|[|j]] r Hj Ha; cbn in Hj; simplify_eq. set_solver.
+               ++ apply (bool_decide_unpack _); by vm_compute.
+            -- apply (Hstep _ _ _ 1%nat r1); [|done|by vm_compute].
+               apply (Hstep _ mnew ∅ 0%nat r0); [constructor|done|by vm_compute].
+            -- intros [|[|[|j]]] r Hj Ha; cbn in Hj; simplify_eq. set_solver.
+            -- apply (bool_decide_unpack _); by vm_compute.
+          * apply (Hstep _ _ _ 3%nat r3); [|done|by vm_compute].
+            apply (Hstep _ _ _ 1%nat r1); [|done|by vm_compute].
+            apply (Hstep _ mnew ∅ 0%nat r0); [constructor|done|by vm_compute].
+          * intros [|[|[|[|j]]]] r Hj Ha; cbn in Hj; simplify_eq; set_solver.
+          * apply (bool_decide_unpack _); by vm_compute.
+        + apply (Hstep _ _ _ 4%nat r4); [|done|by vm_compute].
+          apply (Hstep _ _ _ 3%nat r3); [|done|by vm_compute].
+          apply (Hstep _ _ _ 1%nat r1); [|done|by vm_compute].
+          apply (Hstep _ mnew ∅ 0%nat r0); [constructor|done|by vm_compute].
+        + intros [|[|[|[|[|j]]]]] r Hj Ha; cbn in Hj; simplify_eq; set_solver.
+        + apply (bool_decide_unpack _); by vm_compute.
+      - apply (Hstep _ _ _ 2%nat r2); [|done|by vm_compute].
+        apply (Hstep _ _ _ 1%nat r1); [|done|by vm_compute].
+        apply (Hstep _ mnew ∅ 0%nat r0); [constructor|done|by vm_compute].
+      - intros [|[|[|[|[|[|j]]]]]] r Hj Ha; cbn in Hj; simplify_eq; set_solver.
+      - apply (bool_decide_unpack _); by vm_compute. }
+    split_and!.
+    - done.
+    - apply (Hstep _ _ _ 6%nat r6); [|done|by vm_compute].
+      apply (Hstep _ _ _ 5%nat r5); [|done|by vm_compute].
+      apply (Hstep _ _ _ 4%nat r4); [|done|by vm_compute].
+      apply (Hstep _ _ _ 3%nat r3); [|done|by vm_compute].
+      apply (Hstep _ _ _ 2%nat r2); [|done|by vm_compute].
+      apply (Hstep _ _ _ 1%nat r1); [|done|by vm_compute].
+      apply (Hstep _ mnew ∅ 0%nat r0); [constructor|done|by vm_compute].
+    - apply (Hstep _ _ _ 6%nat r6); [|done|by vm_compute].
+      apply (Hstep _ _ _ 2%nat r2); [|done|by vm_compute].
+      apply (Hstep _ _ _ 5%nat r5); [|done|by vm_compute].
+      apply (Hstep _ _ _ 4%nat r4); [|done|by vm_compute].
+      apply (Hstep _ _ _ 3%nat r3); [|done|by vm_compute].
+      apply (Hstep _ _ _ 1%nat r1); [|done|by vm_compute].
+      apply (Hstep _ mnew ∅ 0%nat r0); [constructor|done|by vm_compute].
+    - apply (bool_decide_unpack _). by vm_compute.
+    - apply (bool_decide_unpack _). by vm_compute.
+    - apply (bool_decide_unpack _). by vm_compute.
+    - apply (bool_decide_unpack _). by vm_compute.
+    - apply (bool_decide_unpack _). by vm_compute.
+    - apply (bool_decide_unpack _). by vm_compute.
+    - apply (bool_decide_unpack _). by vm_compute.
+    - apply (bool_decide_unpack _). by vm_compute.
+    - apply (bool_decide_unpack _). by vm_compute.
+    - apply (bool_decide_unpack _). by vm_compute.
+    - apply (bool_decide_unpack _). by vm_compute.
+    - apply (bool_decide_unpack _). by vm_compute.
+    - by vm_compute.
+    - by vm_compute.
+    - by vm_compute.
+    - by vm_compute.
+  Qed.
+End example.
+
+Print Assumptions m2_step.
+Print Assumptions m2_inv_reach.
+Print Assumptions m2hist_facts.
+Print Assumptions map2_values_refine.
+Print Assumptions map2_valspec_ok.
+Print Assumptions map2_converge.
+Print Assumptions map2_dup_absorb.
+Print Assumptions map2_inner_key_iff.
+Print Assumptions map2_member_iff.
+Print Assumptions map2_example.
